@@ -13,7 +13,7 @@ DOC = {
                    'accessor reads (R6); the n inherited from the group command is the user\'s --rf-over even with --transform (R7); the top-up to n counts sub-groups (R8 = C02.R1).',
     'rules': {
         'C08.R1': 'partition: retain(g) = g.should_keep(config) || !g.may_drop(config) (truth table of the closure given to Iterator::partition)',
-        'C08.R2': 'FileSubGroup::should_keep = any(should_keep(path)); may_drop = all(may_drop(path)); should_keep(path) = any keep-name || any keep-path; may_drop(path) = (no name and no path patterns) || any name || any path',
+        'C08.R2': 'FileSubGroup::should_keep = any(should_keep(path)); may_drop = all(may_drop(path)); should_keep(path) = any keep-name || any keep-path; may_drop(path) = (no name patterns || any name) && (no path patterns || any path) - both options are restrictions, as in group',
         'C08.R3': 'priorities applied in reverse order (iter().rev()) with stable sorts only; priorities that are not sorts by a key (top/bottom: reverse / keep the current order) are applied to the report order only - the list is cut after the first of them',
         'C08.R4': 'FileSubGroup::group(files, &config.isolated_roots, !config.match_links)',
         'C08.R5': 'run_dedupe: no_check_size |= transform.is_some(); match_links |= header; rf_over defaulted only when None; isolated_roots defaulted only when empty and the header had --isolate; get_command_config re-bases on header.base_dir',
@@ -170,8 +170,12 @@ def r2(ctx):
         need = {'name_patterns.is_empty', 'path_patterns.is_empty', 'name_patterns.any', 'path_patterns.any'}
         if set(atoms) == need:
             tt = truth_table(md, atoms)
-            ok, why = table_equals(tt, lambda a: (a['name_patterns.is_empty'] and a['path_patterns.is_empty']) or a['name_patterns.any'] or a['path_patterns.any'])
-            ctx.check(ok, rule, md.path + '|formula', md.where(), 'may_drop(path) = (no patterns) || any name || any path  [%s]' % why, 'may_drop differs: %s' % why)
+            # both options are documented as *restrictions* ("Restrict the set of files that can be removed ... to files with the name / path matching"),
+            # and group combines the same pair with AND (PathSelector::matches_full_path): a file may be dropped iff it passes both
+            ok, why = table_equals(tt, lambda a: (a['name_patterns.is_empty'] or a['name_patterns.any']) and (a['path_patterns.is_empty'] or a['path_patterns.any']))
+            ctx.check(ok, rule, md.path + '|formula', md.where(), 'may_drop(path) = (no name patterns || any name) && (no path patterns || any path)  [%s]' % why,
+                      'may_drop is not the conjunction of the two restrictions (%s): with `--name "*.jpg" --path "trash/**"` a file is droppable when it matches EITHER, so adding the second restriction '
+                      'enlarges the set of removed files (keep/a.jpg and trash/d.txt are removed); `group --name .. --path ..` selects with AND' % why)
         else:
             ctx.violation(rule, md.path + '|formula', md.where(), 'may_drop atoms are %s' % sorted(atoms))
     # the leaf closures use Pattern::matches on the file name / matches_path on the path, un-negated
